@@ -130,28 +130,29 @@ PROPS["C01"] = {"jobs": [esc_job("C01")] + PROPS["C02"]["jobs"], "bounds": ESC_B
 
 CHAIN_H = ["CreateDeployment", "DepositDeployment", "UpdateDeployment", "CloseDeployment", "CloseGroup", "PauseGroup", "StartGroup",
            "CreateBid", "CloseBid", "CreateLease", "WithdrawLease", "CloseLease"]
+CHAIN_G2_Q = ["CloseDeployment", "CloseGroup", "PauseGroup", "StartGroup", "CloseBid", "WithdrawLease", "CloseLease"]
 def chain_job(owner):
     return {
         "pkg": "zzverif/chain", "pkgname": "zzchain",
         "files": ["harness/CHAIN/chain.go", "harness/CHAIN/inv.go", "harness/CHAIN/step.go", "harness/CHAIN/events.go", "harness/CHAIN/c08.go"],
         "extra_overlays": {"x/market/keeper/zz_verif_export.go": "harness/CHAIN/export_market.go"},
         "shims": ["shim.go.tmpl", "shim_chain.go.tmpl"],
-        "quick": ["Harness_CHAIN_%s_12" % h for h in CHAIN_H],
-        "thorough": ["Harness_CHAIN_%s_12" % h for h in CHAIN_H] + ["Harness_CHAIN_%s_21" % h for h in CHAIN_H],
+        "quick": ["Harness_CHAIN_%s_12" % h for h in CHAIN_H] + ["Harness_CHAIN_%s_g2" % h for h in CHAIN_G2_Q],
+        "thorough": ["Harness_CHAIN_%s_12" % h for h in CHAIN_H] + ["Harness_CHAIN_%s_21" % h for h in CHAIN_H] + ["Harness_CHAIN_%s_g2" % h for h in CHAIN_H],
         "opts": {"timeout": 20000, "witness": 3},
         "owner": owner,
         "reach": {"Harness_CHAIN_%s_12" % h: ["accepted", "rejected"] for h in CHAIN_H},
     }
 CHAIN_BOUNDS = {
-    "quick": "handler level, one message from an arbitrary INV pre-state: focus deployment (tenant,1) absent/present with one group, 1 order slot x 2 provider slots (each: none / bid / bid+lease), all record states symbolic, all balances/prices/deposits unbounded integers in [0,2^100), heights in [1,2^40) with arbitrary gaps incl. 0; bystander deployment (tenant,12) with one order/bid/lease slot; all 12 deployment+market handlers with symbolic message fields; real keepers and escrow hooks wired as app.setAkashKeepers",
-    "thorough": "adds the 2-order-slots x 1-provider universe for all 12 handlers",
+    "quick": "handler level, one message from an arbitrary INV pre-state: focus deployment (tenant,1) absent/present with one group, 1 order slot x 2 provider slots (each: none / bid / bid+lease), all record states symbolic, all balances/prices/deposits unbounded integers in [0,2^100), heights in [1,2^40) with arbitrary gaps incl. 0; bystander deployment (tenant,12) with one order/bid/lease slot; a second universe (_g2) in which the focus deployment has TWO groups (one order slot, one provider each) for the 7 handlers that name a group or end leases (close deployment/group, pause, start, close bid, withdraw, close lease), with the clause that a message touches only the group it names unless the deployment's account closes; all 12 deployment+market handlers with symbolic message fields; real keepers and escrow hooks wired as app.setAkashKeepers",
+    "thorough": "adds the 2-order-slots x 1-provider universe and the 2-groups universe for all 12 handlers",
 }
 CHAIN_ASSUME = ["INV (DESIGN §4, Appendix A) is assumed of the pre-state and asserted of the post-state: induction over histories of any length inside the identifier universe",
     "a failing or panicking handler leaves the state unchanged (SDK transaction semantics); ValidateBasic runs before the handler",
     "pre-state records are written through the keepers' own save/update functions and keys"]
 for pid in ("C04", "C05", "C16"):
     PROPS[pid] = {"jobs": [chain_job(pid)], "bounds": CHAIN_BOUNDS, "stubs": CHAIN_STUBS + ["params subspace -> value kept in the context model", "telemetry -> no-op"],
-        "outside_claim": ["more than one group per deployment, more than 2 order/provider slots", "provider deletion (unimplemented in the repo)", "Begin/EndBlock (empty for the akash modules)"],
+        "outside_claim": ["more than two groups per deployment, more than 2 order/provider slots", "provider deletion (unimplemented in the repo)", "Begin/EndBlock (empty for the akash modules)"],
         "assumptions": CHAIN_ASSUME}
 C16_CODEC = ["Harness_C16_codec_%s" % k for k in ("deployment", "group", "order", "bid_lease", "provider_audit")]
 PROPS["C16"] = dict(PROPS["C16"])
@@ -208,6 +209,7 @@ PROPS["C07"] = {
 }
 
 C08_M = ["Harness_C08_match_%s" % s for s in ("self_1", "self_2", "allof_1", "allof_2", "anyof_1", "anyof_2", "both", "none")]
+C08_AUD = ["Harness_C08_audit_update_0", "Harness_C08_audit_update_2", "Harness_C08_audit_delete_1", "Harness_C08_audit_delete_2"]
 def c08_chain():
     j = chain_job("C08")
     j["quick"] = ["Harness_C08_bid_self", "Harness_C08_bid_auditors", "Harness_C08_update_provider"]
@@ -218,6 +220,8 @@ PROPS["C08"] = {
     "jobs": [
         {"pkg": "x/deployment/types", "files": ["harness/C08/match.go"], "quick": C08_M, "thorough": C08_M + ["Harness_C08_match_both_2"], "opts": {"timeout": 20000}},
         c08_chain(),
+        {"pkg": "x/audit/keeper", "files": ["harness/C07/audit.go", "harness/C08/audit.go"], "shims": ["shim.go.tmpl", "shim_chain.go.tmpl"],
+         "quick": C08_AUD, "thorough": C08_AUD, "opts": {"timeout": 20000, "witness": 4}, "reach": {"Harness_C08_audit_delete_2": ["accepted", "rejected"]}},
     ],
     "bounds": {"quick": "attribute kernel MatchRequirements: <=2 required attributes, <=2 own, all-of/any-of lists of <=2 auditors out of 3, attestations by <=3 auditors with <=2 attributes, keys and values symbolic 1-byte strings; handler CreateBid: order absent/open/matched/closed (symbolic), provider registered or not, bidder = provider or = tenant, price and deposit symbolic amounts in 2 denominations, 1 required attribute, <=2 own attributes, all-of/any-of lists of <=1 of 2 auditors, attestations present or not; UpdateProvider: 2 leases of possibly other providers with symbolic state, <=2 new attributes",
                "thorough": "adds a 2-requirement x 3-attestation kernel instance"},
@@ -277,7 +281,10 @@ PROPS["C13"] = {
 PROPS["C14"] = {
     "jobs": [{"pkg": "provider/cluster", "files": ["harness/C14/manager.go"], "shims": ["shim.go.tmpl", "shim_loop.go.tmpl"],
               "quick": ["Harness_C14_5"], "thorough": ["Harness_C14_6", "Harness_C14_8"],
-              "opts": {"timeout": 20000, "witness": 6}, "reach": {"Harness_C14_5": ["returned", "idle"]}}],
+              "opts": {"timeout": 20000, "witness": 6}, "reach": {"Harness_C14_5": ["returned", "idle"]}},
+             {"pkg": "provider/cluster", "files": ["harness/C14/manager.go", "harness/C14/service.go"], "shims": ["shim.go.tmpl", "shim_loop.go.tmpl"],
+              "quick": ["Harness_C14_service_4"], "thorough": ["Harness_C14_service_5"],
+              "opts": {"timeout": 20000, "witness": 4}, "reach": {"Harness_C14_service_4": ["observed"], "Harness_C14_service_5": ["observed"]}}],
     "bounds": {"quick": "(*deploymentManager).run with startDeploy/startTeardown/do/doDeploy/doTeardown: <=6 selects before shutdown is forced, then the post-loop drain; hostname reservation ok/failed, <=2 manifest updates, one lease-closed (teardown) request, deploy and teardown completing ok or failing at any scheduler-chosen point, provider shutdown at any point",
                "thorough": "8 and 10 selects"},
     "stubs": LOOP_STUBS + ["newDeploymentMonitor/newDeploymentWithdrawal -> already-finished stubs in the engine (natively the real ones run against the stub client)", "retry.Do -> up to 3 immediate attempts"],
